@@ -60,6 +60,7 @@ PeImportsOk == "PeImports" \notin vBad      MzReadBack == "MzReadBack" \notin vB
 \* layout text
 LtAccepts == "LtAccepts" \notin vBad        LtParsed == "LtParsed" \notin vBad
 LtPrinted == "LtPrinted" \notin vBad        LtRoundTrip == "LtRoundTrip" \notin vBad
+LtDistinguishes == "LtDistinguishes" \notin vBad
 \* archive
 ArSaved == "ArSaved" \notin vBad            ArDocument == "ArDocument" \notin vBad
 ArLoaded == "ArLoaded" \notin vBad          ArCount == "ArCount" \notin vBad
